@@ -253,7 +253,8 @@ def isize(w, l):
 
 
 def iadd(a, b):
-    assert a[1] == b[1], (a, b)
+    if a[1] != b[1]:
+        raise Undecided("integer terms of different widths combined: u%d and u%d" % (a[1], b[1]))
     w = a[1]
     d = {}
     for at, k in a[3] + b[3]:
